@@ -145,7 +145,7 @@ def fleet(props=("C14",), cap=2, n_loads=3, sym=("gap", "delay", "transit"), con
 
 
 def conveyor(props=("C12", "C13"), kind="cconv", acc=1, cap=3, n_items=3, consumer="eager", sym=("gap",), speed=1, item_len=1, slot=1,
-             length=None, twin=False, gap_hi=4, svc_hi=6):
+             length=None, twin=False, gap_hi=4, svc_hi=6, n_prod=1):
     """producer: reserve_put/put with symbolic gaps; consumer: reserve_get, get, then busy for a symbolic service time"""
     def fn(ctx):
         load_repo()
@@ -182,8 +182,11 @@ def conveyor(props=("C12", "C13"), kind="cconv", acc=1, cap=3, n_items=3, consum
         F.step_hooks.append(_watch_ready(F, e, R))
         pending_put = {"since": None}
 
-        def producer():
-            for k in range(n_items):
+        entry_seq = []
+        got_seq = []
+
+        def producer(which=0):
+            for k in range(which, n_items, n_prod):
                 yield env.timeout(gaps[k])
                 tok = e.reserve_put()
                 pending_put["since"] = env.now
@@ -191,6 +194,7 @@ def conveyor(props=("C12", "C13"), kind="cconv", acc=1, cap=3, n_items=3, consum
                 pending_put["since"] = None
                 e.put(tok, items[k])
                 E[k] = env.now
+                entry_seq.append(k)
 
         def consumer_p():
             if consumer == "late":
@@ -205,6 +209,7 @@ def conveyor(props=("C12", "C13"), kind="cconv", acc=1, cap=3, n_items=3, consum
                 it = e.get(tok)
                 G[int(it.id[1:])] = env.now
                 order_out.append(int(it.id[1:]))
+                got_seq.append(int(it.id[1:]))
                 if consumer == "slow" and k < len(svc):
                     yield env.timeout(svc[k])
                 k += 1
@@ -213,7 +218,8 @@ def conveyor(props=("C12", "C13"), kind="cconv", acc=1, cap=3, n_items=3, consum
             if F.occupancy(e) > capacity:
                 F.soft(f"C12:more-than-capacity-items-on-the-belt@{tag}", {"occ": F.occupancy(e)})
         F.step_hooks.append(cap_monitor)
-        env.process(producer())
+        for w in range(n_prod):
+            env.process(producer(w))
         env.process(consumer_p())
         t_end = 0
         for g in gaps:
@@ -224,7 +230,16 @@ def conveyor(props=("C12", "C13"), kind="cconv", acc=1, cap=3, n_items=3, consum
         F.run(until=t_end, per_instant=800, max_steps=12000)
         ctx.hit("C12:checked")
         tol = 2e-5
+        # re-index everything by entry rank (with two producers the item numbers are not in entry order)
+        rank = {k: pos for pos, k in enumerate(entry_seq)}
+        E = {rank[k]: v for k, v in E.items()}
+        G = {rank[k]: v for k, v in G.items() if k in rank}
+        order_out = [rank[k] for k in order_out if k in rank]
+        items = [items[k] for k in entry_seq] + [it for k, it in enumerate(items) if k not in rank]
         n_in = len(E)
+        # context flags for signatures: entries squeezed together inside the 1e-5 admission tolerance; consumer holding a granted reservation
+        squeezed = any(ctx.lt(E[k] - E[k - 1], spacing) for k in range(1, n_in))
+        tag = tag[:-1] + (",tolerance-squeezed-entries" if squeezed else "") + (",held-reservation" if consumer == "hold" else "") + "]"
         if n_in < n_items:
             # the producer is still waiting for admission at the end: the belt must be full or blocked
             F.soft(f"C13:item-never-admitted@{tag}", {"admitted": n_in})
@@ -272,7 +287,9 @@ def conveyor(props=("C12", "C13"), kind="cconv", acc=1, cap=3, n_items=3, consum
                 for (a, b, h) in stalls:
                     for k in range(n_in):
                         if ctx.lt(a, E[k]) and ctx.lt(E[k], b):
-                            F.soft(f"C13:item-admitted-while-the-belt-was-stopped@{tag}", {"k": k, "head": h})
+                            # was something still travelling (entered, not yet at the exit) at that moment?
+                            moving = any(j != k and ctx.le(E[j], E[k]) and (R.get(id(items[j])) is None or ctx.lt(E[k], R[id(items[j])])) for j in range(n_in))
+                            F.soft(f"C13:item-admitted-while-the-belt-was-stopped{'-with-items-frozen-on-it' if moving else ''}@{tag}", {"k": k, "head": h})
                 for k in range(n_in):
                     Rk = R.get(id(items[k]))
                     if Rk is None:
